@@ -14,7 +14,7 @@ CHECKS = {
             {"pkg": "cli_v2", "entries": ["VerifC14Diff"], "params": {"N": 2, "COLOR": 1}},
             {"pkg": "cli_v2", "entries": ["VerifC14Diff"], "params": {"N": 1, "PRECISION": 1, "FORMATS": 1, "MODES": 1, "DOCS": 3}, "extra": ["-solver", "cvc5"]},
             {"pkg": "cli_v2", "entries": ["VerifC14Patch", "VerifC14Errors", "VerifC14Translate"], "params": {"N": 2}},
-            {"pkg": "cli_v2", "entries": ["VerifC14SetKeys", "VerifC14GitDriver"], "params": {"N": 2, "KN": 1, "KM": 1}},
+            {"pkg": "cli_v2", "entries": ["VerifC14SetKeys", "VerifC14GitDriver", "VerifC14Yaml"], "params": {"N": 2, "KN": 1, "KM": 1}},
             {"pkg": "cli_root", "entries": ["VerifC14Diff", "VerifC14Patch", "VerifC14Errors", "VerifC14DiffV1", "VerifC14PatchV1"], "params": {"N": 1}},
         ],
         "thorough": [
@@ -22,13 +22,13 @@ CHECKS = {
             {"pkg": "cli_v2", "entries": ["VerifC14Diff"], "params": {"N": 1, "PRECISION": 1, "FORMATS": 1, "MODES": 1, "DOCS": 3}, "extra": ["-solver", "cvc5"]},
             {"pkg": "cli_v2", "entries": ["VerifC14Patch", "VerifC14Errors", "VerifC14Translate"], "params": {"N": 3}},
             {"pkg": "cli_v2", "entries": ["VerifC14SetKeys", "VerifC14GitDriver"], "params": {"N": 2, "KN": 2, "KM": 1}},
-            {"pkg": "cli_root", "entries": ["VerifC14SetKeys", "VerifC14GitDriver"], "params": {"N": 2, "KN": 1, "KM": 1}},
+            {"pkg": "cli_root", "entries": ["VerifC14SetKeys", "VerifC14GitDriver", "VerifC14Yaml"], "params": {"N": 2, "KN": 1, "KM": 1}},
             {"pkg": "cli_root", "entries": ["VerifC14Diff", "VerifC14Patch", "VerifC14Errors", "VerifC14Translate", "VerifC14DiffV1", "VerifC14PatchV1"], "params": {"N": 2}},
         ],
-        "covers": ["c14.diff.files", "c14.diff.stdin", "c14.diff.outfile", "c14.patch", "c14.errors", "c14.translate.jd2patch", "c14.translate.patch2jd", "c14.translate.jd2merge", "c14.translate.merge2jd", "c14.v1diff.files", "c14.v1diff.stdin", "c14.v1diff.outfile", "c14.v1patch", "c14.setkeys", "c14.setkeys.bad", "c14.gitdriver", "c14.gitdriver.bad"],
-        "outside": "PARTIAL: both binaries and the top-level binary with -v2=false, JSON input only; -yaml, -port and GitHub-action mode are not covered; process start-up, the real flag parser, files and stdio are models in the engine (the native replay runs the real binary)",
+        "covers": ["c14.diff.files", "c14.diff.stdin", "c14.diff.outfile", "c14.patch", "c14.errors", "c14.translate.jd2patch", "c14.translate.patch2jd", "c14.translate.jd2merge", "c14.translate.merge2jd", "c14.v1diff.files", "c14.v1diff.stdin", "c14.v1diff.outfile", "c14.v1patch", "c14.setkeys", "c14.setkeys.bad", "c14.gitdriver", "c14.gitdriver.bad", "c14.yaml.diff", "c14.yaml.patch", "c14.yaml.json2yaml", "c14.yaml.yaml2json"],
+        "outside": "PARTIAL: both binaries and the top-level binary with -v2=false, JSON input, and YAML input/output under a structural yaml.v2 model (numbers, arrays, objects with keys a,b; the character-level YAML questions are C16's and not applicable); -port and GitHub-action mode are not covered; process start-up, the real flag parser, files and stdio are models in the engine (the native replay runs the real binary)",
         "level_note": "PARTIAL claim (DESIGN.md section 7): main() of /repo/v2/jd and of /repo (with -v2 true and false) is executed in-process by the engine over models of flag, os, fmt, log and ioutil (flags registered by the real flag.X calls of the package initialiser, a model of flag.Parse, virtual files / stdin / stdout, os.Exit ends main); expected output and status are computed in the harness with library calls and the flag->option mapping of README.md. Counterexamples and sampled paths are replayed by running the real binary as a process.",
-        "assumptions": ["CLI: package flag, os, fmt, log, ioutil are models (registered flags, model of flag.Parse incl. -x, -x=v, -x v, --; virtual files; os.Exit ends main); strconv.FormatFloat/ParseFloat round-trip exactly"],
+        "assumptions": ["CLI: package flag, os, fmt, log, ioutil are models (registered flags, model of flag.Parse incl. -x, -x=v, -x v, --; virtual files; os.Exit ends main); strconv.FormatFloat/ParseFloat round-trip exactly", "yaml.v2 is a structural model like encoding/json (numbers decode to float64 instead of int for integral values: jd's only consumer NewJsonNode converts both to the same number); concrete texts go through the real yaml.v2"],
     },
     "C17": {
         "quick": [
